@@ -44,6 +44,12 @@ func (f *Isqrt) Call(s *slip.Scope, args slip.List, depth int) (result slip.Obje
 	switch ta := args[0].(type) {
 	case *slip.Bignum:
 		result = (*slip.Bignum)(new(big.Int).Sqrt((*big.Int)(ta)))
+	case slip.Fixnum:
+		if ta < 0 {
+			slip.ArithmeticPanic(s, depth, f, args, "only non-negative values are allowed")
+		}
+		// An integer root: the float64 root is off by one next to a square above 2^53.
+		result = slip.Fixnum(new(big.Int).Sqrt(big.NewInt(int64(ta))).Int64())
 	case *slip.LongFloat:
 		var z big.Int
 		bi, _ := new(big.Float).Sqrt((*big.Float)(ta)).Int(&z)
